@@ -22,6 +22,8 @@ Inductive ast :=
 | APrint (letters path : bytes) (mods : list amod) (pfx sfx : bytes) (raw : bool)
 | ATernary (c : acond) (p1 p2 : bytes)
 | AIf (c : acond) (th el : list ast) (has_else : bool)
+| AIfOK (v okv arg : bytes) (arglit neg : bool) (th el : list ast) (has_else : bool)
+                                          (* {% if v, okv := vok(arg).(static); [!]okv %} *)
 | ASwitch (arg : bytes) (cases : list ast) (dflt : list ast) (has_default : bool)
 | ACase (c : acond) (body : list ast)      (* only inside ASwitch; classic form: ac_l is the case value *)
 | ACLoop (var init lim : bytes) (initlit limlit : bool) (cop step : op) (sep : bytes)
